@@ -164,7 +164,7 @@ MkTok(t, k, p, n) ==
 Expected(t, p) ==
     LET ML == MatchLens(t, p) IN
     IF ML # {}
-      THEN LET L == SetMax(ML) IN {MkTok(t, KindOf(t, p, L), p, L)}
+      THEN {MkTok(t, KindOf(t, p, L), p, L) : L \in {SetMax(ML)}}   \* (L bound, not LET: TLC then computes it once)
       ELSE {MkTok(t, "err", p, n) : n \in 1..Rem(t, p)}
 
 ---------------------------------------------------------------------------
